@@ -51,9 +51,30 @@ func (w *scriptWatcher) Watch(ctx context.Context, _ object.ObjMetadataSet, _ wa
 	return ch
 }
 
+// statusEvent: the step tag travels in the body (annotation stepAnnotation) when the
+// observation has one, so that consecutive observations can be equal in status, message,
+// UID and generation and still differ in content; body-less observations carry it in the
+// message.
+const stepAnnotation = "verif.example/step"
+
 func statusEvent(id object.ObjMetadata, o obsT, tag string) pollevent.Event {
+	res := mkResource(id, o)
+	msg := tag
+	if res != nil {
+		res.SetAnnotations(map[string]string{stepAnnotation: tag})
+		msg = "observed"
+	}
 	return pollevent.Event{Type: pollevent.ResourceUpdateEvent, Resource: &pollevent.ResourceStatus{
-		Identifier: id, Status: statuses[o.st], Resource: mkResource(id, o), Message: tag}}
+		Identifier: id, Status: statuses[o.st], Resource: res, Message: msg}}
+}
+
+// cachedTag reads the step tag of the cache entry for id.
+func cachedTag(rc *cache.ResourceCacheMap, id object.ObjMetadata) string {
+	e := rc.Get(id)
+	if e.Resource != nil {
+		return e.Resource.GetAnnotations()[stepAnnotation]
+	}
+	return e.StatusMessage
 }
 
 var markerCount uint64
@@ -119,7 +140,8 @@ func executeViaRunner(sc *scenario) (res result) {
 	var delivered []inputT
 	var steps [][]wev
 	syncSeen := false
-	w := &scriptWatcher{drive: func(_ context.Context, send func(pollevent.Event) bool) {
+	dropped := ""
+	w := &scriptWatcher{drive: func(wctx context.Context, send func(pollevent.Event) bool) {
 		defer close(driverDone)
 		// observations that arrive before the phase starts: cache only
 		for _, ce := range sc.cache0 {
@@ -144,7 +166,17 @@ func executeViaRunner(sc *scenario) (res result) {
 			// status channel.  The event was handled by the loop iff the loop
 			// wrote it to the cache (runner.go writes the cache for every
 			// status event it handles).
-			if rc.Get(universe[x.id]).StatusMessage != tag {
+			if cachedTag(rc, universe[x.id]) != tag {
+				// either the runner is returning (final drain), or it dropped the observation
+				// while still running: the cache must hold the most recent observation
+				// (the runner cancels the watcher's context BEFORE it drains the channel, so an
+				// observation swallowed by the drain finds the context done)
+				select {
+				case <-wctx.Done():
+				case <-time.After(300 * time.Millisecond):
+					dropped = fmt.Sprintf("the runner took the observation %s of %v but did not write it to the resource cache (cache holds %q)",
+						tag, universe[x.id], cachedTag(rc, universe[x.id]))
+				}
 				return
 			}
 			delivered = append(delivered, x)
@@ -188,6 +220,14 @@ func executeViaRunner(sc *scenario) (res result) {
 	}
 	if !syncSeen {
 		res.failure = "the runner returned before the Sync event"
+		return res
+	}
+	if dropped != "" {
+		res.events = steps
+		res.inputs = append([]inputT{}, delivered...)
+		res.failure = dropped
+		cancel()
+		awaitRun(5 * time.Second)
 		return res
 	}
 	res.events = steps
